@@ -1156,6 +1156,54 @@ func main() {
 		}
 		init.Close()
 	}
+	// ---- part H: a transaction is all or nothing even when its connection is being closed. (1) the
+	// transaction kills its own connection half-way; (2) another connection kills it while a long EXEC runs.
+	for round := 0; round < *stress && failures == 0 && on("H"); round++ {
+		vs := redisemu.VerifNewStore("")
+		do := func(cl *redisemu.VerifClient, a ...string) string { r, _ := cl.Dispatch(toArgv(a)); return string(r) }
+		a, b := vs.NewClient(), vs.NewClient()
+		id := strconv.FormatInt(int64(a.ID()), 10)
+		do(a, "MULTI")
+		do(a, "SET", "ka", "1")
+		do(a, "CLIENT", "KILL", "ID", id, "SKIPME", "no")
+		do(a, "SET", "kb", "2")
+		do(a, "INCR", "kc")
+		r := do(a, "EXEC")
+		stats["kill_in_transaction_checks"]++
+		got := do(b, "MGET", "ka", "kb", "kc")
+		want := "*3\r\n" + bulk("1") + bulk("2") + bulk("1")
+		if got != want || !strings.HasPrefix(r, "*4\r\n+OK\r\n") || !strings.HasSuffix(r, "+OK\r\n:1\r\n") {
+			fail("kill-in-transaction", round, []string{"A: MULTI / SET ka 1 / CLIENT KILL ID <A> SKIPME no / SET kb 2 / INCR kc / EXEC", "B: MGET ka kb kc"},
+				fmt.Sprintf("EXEC answered %.120q and another connection reads ka kb kc = %.120q: the commands queued after the kill were not executed (a transaction runs completely or not at all)", r, got))
+			break
+		}
+		// (2)
+		c, d := vs.NewClient(), vs.NewClient()
+		cid := strconv.FormatInt(int64(c.ID()), 10)
+		do(c, "MULTI")
+		n := 20000
+		for i := 0; i < n; i++ {
+			do(c, "INCR", "long")
+		}
+		fin := make(chan string, 1)
+		go func() { fin <- do(c, "EXEC") }()
+		time.Sleep(time.Duration(200+round*300) * time.Microsecond)
+		do(d, "CLIENT", "KILL", "ID", cid)
+		select {
+		case <-fin:
+		case <-time.After(20 * time.Second):
+			fail("kill-in-transaction", round, nil, "EXEC of 20000 INCRs did not return within 20 s after CLIENT KILL of its connection")
+		}
+		if failures == 0 {
+			if v := do(d, "GET", "long"); v != bulk(strconv.Itoa(n)) && v != "$-1\r\n" {
+				fail("kill-in-transaction", round, []string{"C: MULTI / INCR long x 20000 / EXEC", "D (while the EXEC runs): CLIENT KILL ID <C>"},
+					fmt.Sprintf("after the transaction the counter is %.40q: part of the queue was executed and the rest dropped", v))
+			}
+		}
+		stats["kill_during_exec_checks"]++
+		b.Close()
+		d.Close()
+	}
 	res := map[string]any{"stats": stats, "samples": samples, "failures": failures, "wall_s": time.Since(start).Seconds()}
 	if *out != "" {
 		data, _ := json.MarshalIndent(res, "", " ")
